@@ -181,7 +181,7 @@ example (orc : UriOracle) (h : orc.requestOK "https://ok.example" = true) :
 theorem serviceOK_iff (orc : UriOracle) (s : Json) :
     serviceOK orc s = true ↔
       (validID (stringEntry (s.get? "id")) = true ∧
-       stringEntry (s.get? "type") ≠ "" ∧ utf8Len (stringEntry (s.get? "type")) ≤ 30 ∧
+       stringEntry (s.get? "type") ≠ "" ∧ (stringEntry (s.get? "type")).length ≤ 30 ∧
        endpointOK orc (s.get? "serviceEndpoint") = true) := by
   simp only [serviceOK, Expected.maxServiceTypeLength]
   constructor
